@@ -14,6 +14,7 @@ import (
 	"net/http/httptest"
 	"os"
 	"path/filepath"
+	"regexp"
 	"runtime"
 	"strings"
 	"sync"
@@ -100,6 +101,23 @@ func (p *mapProxy) RoundTrip(req *http.Request) (*http.Response, error) {
 	text := "ok"
 	if status != 200 {
 		text = "unavailable"
+	} else if req.Method == http.MethodGet {
+		// the read-only side of the admin API as haproxy.cfg defines it: /managed_endpoint answers whether the
+		// body, taken as text, is matched by one of the stored expressions (map_reg), /manage_all whether every
+		// endpoint is managed
+		switch {
+		case strings.HasSuffix(req.URL.Path, "/managed_endpoint"):
+			text = "false"
+			for k := range p.managed {
+				if re, err := regexp.Compile(k); err == nil && re.MatchString(body) {
+					text = "true"
+				}
+			}
+		case strings.HasSuffix(req.URL.Path, "/manage_all"):
+			text = fmt.Sprintf("%v", p.manageAll)
+		case strings.HasSuffix(req.URL.Path, "/unmanage_all"):
+			text = fmt.Sprintf("%v", !p.manageAll && len(p.managed) == 0)
+		}
 	}
 	return &http.Response{StatusCode: status, Status: fmt.Sprintf("%d", status), Body: io.NopCloser(strings.NewReader(text)), Header: http.Header{}, Request: req}, nil
 }
@@ -200,6 +218,25 @@ func TestProxyMapOverReloads(t *testing.T) {
 			steps[0].Soon, steps[0].Overlap, steps[0].FailAt = false, false, 0
 			steps[1].Soon, steps[1].Overlap, steps[1].FailAt = false, true, 0
 			steps[2].Specs, steps[2].FailAt = append([]spec(nil), steps[0].Specs...), 0
+		}
+		// one case in four: an endpoint that another endpoint's expression covers ({id} or /* over a literal
+		// segment) - first the covering one alone, then both, then the covered one alone, each reload long enough
+		// after the other for the deferred un-registration to run
+		if rapid.IntRange(0, 3).Draw(t, "covered") == 0 {
+			// hosts without a dot (service names) half of the time: their expressions read like plain text
+			base := rapid.SampledFrom([]string{"orders-svc", "localhost:8080", "h.com", "api.h.com"}).Draw(t, "cov-host")
+			for _, sg := range rapid.SliceOfN(rapid.SampledFrom(plainSegs), 0, 2).Draw(t, "cov-segs") {
+				base += "/" + sg
+			}
+			over := base + rapid.SampledFrom([]string{"/{id}", "/*", "/{id}/*"}).Draw(t, "cov-over")
+			under := base + "/" + rapid.SampledFrom([]string{"me", "v1", "a-b"}).Draw(t, "cov-under")
+			if strings.HasSuffix(over, "/{id}/*") {
+				under += "/x"
+			}
+			ms := genMethods().Draw(t, "cov-methods")
+			a := spec{Name: "f0", URL: over, Methods: ms}
+			b := spec{Name: "f1", URL: under, Methods: ms, Body: rapid.Bool().Draw(t, "cov-body")}
+			steps = []reloadStep{{Specs: []spec{a}}, {Specs: []spec{a, b}}, {Specs: []spec{b}}, {Specs: []spec{b}}}
 		}
 		clk := vclock.New(time.Unix(1_700_000_000, 0))
 		engine.SetClock(clk)
